@@ -41,7 +41,7 @@ def forbidden_keys():
 
 
 MERGE_KEYS = st.sampled_from(['a', 'b', 'c', 'd', 'x', '_u', 0, 1, 2, -1])
-MERGE_KEYS_NOUS = st.sampled_from(['a', 'b', 'c', 'd', 'x', 'u', 0, 1, 2, -1])
+MERGE_KEYS_NONEG = st.sampled_from(['a', 'b', 'c', 'd', 'x', '_u', 0, 1, 2])
 
 
 def any_keys():
@@ -77,7 +77,7 @@ def mapping_doc(leaves, keys, max_leaves=10, max_children=4, min_size=0):
 
 
 @st.composite
-def mutate(draw, node, fresh, keys, p_depth=0):
+def mutate(draw, node, fresh, keys, p_depth=0, neg=True):
     """A document derived from `node`: keep / drop / replace parts, so that paths collide with the original."""
     choice = draw(st.integers(0, 9))
     if choice == 0:
@@ -89,7 +89,7 @@ def mutate(draw, node, fresh, keys, p_depth=0):
             c = draw(st.integers(0, 3))
             if c == 0:
                 continue
-            items.append([k, draw(mutate(v, fresh, keys, p_depth + 1))])
+            items.append([k, draw(mutate(v, fresh, keys, p_depth + 1, neg))])
         if draw(st.booleans()):
             k = draw(keys)
             if all(k != k2 for k2, _ in items):
@@ -100,25 +100,25 @@ def mutate(draw, node, fresh, keys, p_depth=0):
         if c == 0 and node['items']:
             # mapping addressed onto the list
             n = len(node['items'])
-            idxs = draw(st.lists(st.integers(-n - 1, n), max_size=3, unique=True))
-            return tdoc.mp([(i, draw(mutate(node['items'][i], fresh, keys, p_depth + 1)) if -n <= i < n else draw(fresh)) for i in idxs],
+            idxs = draw(st.lists(st.integers(-n - 1 if neg else 0, n), max_size=3, unique=True))
+            return tdoc.mp([(i, draw(mutate(node['items'][i], fresh, keys, p_depth + 1, neg)) if -n <= i < n else draw(fresh)) for i in idxs],
                            flow=draw(st.booleans()))
         if c == 1:
-            return tdoc.sq([draw(mutate(v, fresh, keys, p_depth + 1)) for v in node['items'][:draw(st.integers(0, len(node['items'])))]],
+            return tdoc.sq([draw(mutate(v, fresh, keys, p_depth + 1, neg)) for v in node['items'][:draw(st.integers(0, len(node['items'])))]],
                            flow=draw(st.booleans()))
         return draw(fresh)
     return draw(fresh) if draw(st.booleans()) else dict(node)
 
 
 @st.composite
-def stage_sequence(draw, leaves, keys, min_stages=1, max_stages=4, max_leaves=8):
+def stage_sequence(draw, leaves, keys, min_stages=1, max_stages=4, max_leaves=8, neg=True):
     fresh = tree(leaves, keys, max_leaves=4, max_children=3)
     docs = [draw(mapping_doc(leaves, keys, max_leaves=max_leaves))]
-    n = draw(st.integers(min_stages, max_stages))
+    n = draw(st.sampled_from([k for k in (2, 2, 3, 3, 4, 1, 5) if min_stages <= k <= max_stages] or [min_stages]))
     while len(docs) < n:
         if draw(st.integers(0, 2)) > 0:
             base = docs[draw(st.integers(0, len(docs) - 1))]
-            d = draw(mutate(base, fresh, keys))
+            d = draw(mutate(base, fresh, keys, 0, neg))
             if d['t'] != 'map':
                 d = draw(mapping_doc(leaves, keys, max_leaves=max_leaves))
             d['flow'] = False
@@ -126,3 +126,87 @@ def stage_sequence(draw, leaves, keys, min_stages=1, max_stages=4, max_leaves=8)
             d = draw(mapping_doc(leaves, keys, max_leaves=max_leaves))
         docs.append(d)
     return docs
+
+
+# ------------------------------------------------------------------------------------------ merge-control flags
+
+MD_KEYS = st.sampled_from(['k1', 'k2', 'note'])
+MD_VALUES = st.one_of(st.integers(0, 5), st.sampled_from(['v', 'w', '']), st.booleans(), st.none(),
+                      st.lists(st.integers(0, 3), max_size=2))
+
+
+def flag_set(prio=True, delete=True, new=True, unsafe=True, md=True, notnew=False, p_none=4):
+    """Strategy for a dict of flags to put on one node (possibly empty)."""
+    opts = []
+    if prio:
+        opts.append(st.fixed_dictionaries({'prio': st.sampled_from([1, -1])}))
+    if delete:
+        opts.append(st.fixed_dictionaries({'del': st.booleans()}))
+    if new:
+        opts.append(st.fixed_dictionaries({'new': st.just(True) if not notnew else st.booleans()}))
+    if unsafe:
+        opts.append(st.fixed_dictionaries({'unsafe': st.just(True)}))
+    if md:
+        opts.append(st.fixed_dictionaries({'md': st.dictionaries(MD_KEYS, MD_VALUES, min_size=1, max_size=2)}))
+    one = st.one_of(*opts)
+    several = st.lists(one, min_size=2, max_size=3).map(lambda ds: {k: v for d in ds for k, v in d.items()})
+    styled = st.tuples(st.one_of(one, one, several), st.sampled_from(['short', 'short', 'braces', 'hex'])).map(
+        lambda t: {**t[0], 'mdstyle': t[1]})
+    return st.one_of(*([st.just({})] * p_none), styled)
+
+
+@st.composite
+def decorate(draw, node, flags, valueless=True, root=True):
+    """Copy of `node` with flags drawn for every node; None scalars may become value-less nodes."""
+    out = {k: v for k, v in node.items() if k not in tdoc.FLAG_KEYS and k != 'mdstyle'}
+    if node['t'] == 'map':
+        out['items'] = [[k, draw(decorate(v, flags, valueless, False))] for k, v in node['items']]
+    elif node['t'] == 'seq':
+        out['items'] = [draw(decorate(v, flags, valueless, False)) for v in node['items']]
+    elif node['t'] == 'sc' and node['v'] is None and valueless and draw(st.booleans()):
+        out = {'t': 'empty'}
+    out.update(draw(flags))
+    return out
+
+
+# ------------------------------------------------------------------------------------------ merge-control decorated stage sequences
+
+@st.composite
+def decorate_merge(draw, node, prio=True, delete=True, new=True, notnew=False, unsafe=False, md=False,
+                   prio_above=False, density=4, empty_del=False, root=True, merge_in_list=True, in_list=False):
+    """Copy of a plain AST with merge-control flags, inside the soundness limits of DESIGN section 6:
+    at most one priority tag per root-to-leaf path; explicit delete flags on containers only and never !del on an
+    empty container (the remove-this-key idiom) unless empty_del."""
+    out = {k: v for k, v in node.items() if k not in tdoc.FLAG_KEYS and k != 'mdstyle'}
+    fl = {}
+    t = node['t']
+    if prio and not prio_above and draw(st.integers(0, density)) == 0:
+        fl['prio'] = draw(st.sampled_from([1, -1]))
+        prio_above = True
+    if delete and t in ('map', 'seq') and draw(st.integers(0, density)) == 0:
+        d = draw(st.booleans())
+        if (d is False and (merge_in_list or not (in_list or t == 'seq'))) or (d is True and (node['items'] or empty_del)):
+            fl['del'] = d
+    if new and draw(st.integers(0, density * 3)) == 0:
+        fl['new'] = draw(st.booleans()) if notnew else True
+    if unsafe and draw(st.integers(0, density * 2)) == 0:
+        fl['unsafe'] = True
+    if md and draw(st.integers(0, density * 2)) == 0:
+        fl['md'] = {draw(MD_KEYS): draw(MD_VALUES)}
+    if fl:
+        fl['mdstyle'] = draw(st.sampled_from(['short', 'braces', 'hex']))
+    kw = dict(prio=prio, delete=delete, new=new, notnew=notnew, unsafe=unsafe, md=md, prio_above=prio_above,
+              density=density, empty_del=empty_del, root=False, merge_in_list=merge_in_list, in_list=in_list or t == 'seq')
+    if t == 'map':
+        out['items'] = [[k, draw(decorate_merge(v, **kw))] for k, v in node['items']]
+    elif t == 'seq':
+        out['items'] = [draw(decorate_merge(v, **kw)) for v in node['items']]
+    out.update(fl)
+    return out
+
+
+@st.composite
+def tagged_stages(draw, min_stages=1, max_stages=4, keys=MERGE_KEYS, leaves=None, max_leaves=8, neg=True, **kw):
+    leaves = leaves or scalar_node(SIMPLE_SCALARS)
+    docs = draw(stage_sequence(leaves, keys, min_stages=min_stages, max_stages=max_stages, max_leaves=max_leaves, neg=neg))
+    return [draw(decorate_merge(d, **kw)) for d in docs]
